@@ -1,7 +1,7 @@
 (* C06 — keystream alignment: remaining states of the read state machine, and runs. *)
 From Coq Require Import NArith List Bool Arith Lia.
 Import ListNotations.
-From LTV.C06 Require Import ParamsGen Model ProofsInv ProofsRun ProofsKs ProofsKs2.
+From LTV.C06 Require Import ParamsProbe Model ProofsInv ProofsRun ProofsKs ProofsKs2.
 
 Lemma Fr_eq : forall s s', nread s' = nread s -> dstart s' = dstart s -> didx s' = didx s -> Fr s -> Fr s'.
 Proof. unfold Fr. intros. congruence. Qed.
